@@ -345,6 +345,26 @@ func webpGrammar(each func(Case)) {
 		data, info := gen.WebPVP8X(byte(flags), 32, 20, nil, inner)
 		each(Case{fmt.Sprintf("webp VP8X flags %#02x 33x21", flags), data, info})
 	}
+	// extended files whose image data is not a single VP8/VP8L chunk right after
+	// the header: separate alpha plane, animation frames, odd-sized chunks (padded)
+	alph := gen.RiffChunk("ALPH", []byte{0, 1, 2, 3, 4, 5, 6})
+	anim := append(gen.RiffChunk("ANIM", []byte{0, 0, 0, 0, 0, 0}), gen.RiffChunk("ANMF", append([]byte{0, 0, 0, 0, 0, 0, 32, 0, 0, 20, 0, 0, 40, 0, 0, 0}, inner...))...)
+	for _, v := range []struct {
+		name  string
+		flags byte
+		icc   []byte
+		rest  []byte
+	}{
+		{"alpha: ALPH then VP8", 0x10, nil, append(append([]byte{}, alph...), inner...)},
+		{"alpha + ICCP: ALPH then VP8", 0x30, testProfile(301, "lcg"), append(append([]byte{}, alph...), inner...)},
+		{"alpha + ICCP (odd length): ALPH then VP8", 0x30, testProfile(333, "lcg"), append(append([]byte{}, alph...), inner...)},
+		{"animation: ANIM, ANMF", 0x02, nil, anim},
+		{"animation + ICCP: ANIM, ANMF", 0x22, testProfile(301, "lcg"), anim},
+		{"EXIF and XMP after the image", 0x0C, nil, append(append(append([]byte{}, inner...), gen.RiffChunk("EXIF", []byte{1, 2, 3})...), gen.RiffChunk("XMP ", []byte("<x/>"))...)},
+	} {
+		data, info := gen.WebPVP8X(v.flags, 32, 20, v.icc, v.rest)
+		each(Case{"webp VP8X " + v.name, data, info})
+	}
 	for _, d := range [][2]uint32{{0, 0}, {0xFFFFFF, 0}, {0, 0xFFFFFF}, {0xFFFFFF, 0xFFFFFF}, {0x123456, 0x0789AB}} {
 		data, info := gen.WebPVP8X(0, d[0], d[1], nil, inner)
 		each(Case{fmt.Sprintf("webp VP8X %dx%d", d[0]+1, d[1]+1), data, info})
